@@ -380,6 +380,65 @@ func c07Case(c *rt.Ctx, sub int, t reflect.Type, fdesc string, doc []byte, seed 
 	}
 }
 
+// c07StringOpt: members narrower than a word that carry the ,string option (their decoder works on
+// a quoted payload and has its own null handling), packed next to each other and framed by
+// canaries; pre-painted destinations, buffer and stream mode.
+func c07StringOpt(c *rt.Ctx, sub0 int) {
+	canary := reflect.TypeOf([16]byte{})
+	mk := func(kinds []reflect.Type) reflect.Type {
+		fs := []reflect.StructField{{Name: "K0", Type: canary, Tag: `json:"-"`}}
+		for i, k := range kinds {
+			fs = append(fs, reflect.StructField{Name: fmt.Sprintf("F%d", i), Type: k, Tag: reflect.StructTag(fmt.Sprintf(`json:"f%d,string"`, i))})
+		}
+		fs = append(fs, reflect.StructField{Name: "K1", Type: canary, Tag: `json:"-"`})
+		return reflect.StructOf(fs)
+	}
+	types := []reflect.Type{
+		mk([]reflect.Type{reflect.TypeOf(int8(0)), reflect.TypeOf(false), reflect.TypeOf(uint8(0)), reflect.TypeOf(int16(0)), reflect.TypeOf(uint8(0))}),
+		mk([]reflect.Type{reflect.TypeOf(false)}), mk([]reflect.Type{reflect.TypeOf(int32(0)), reflect.TypeOf(float32(0))}), mk([]reflect.Type{reflect.TypeOf(""), reflect.TypeOf(int8(0))}),
+		mk([]reflect.Type{reflect.TypeOf(uint16(0)), reflect.TypeOf(uint16(0)), reflect.TypeOf(uint16(0))}), mk([]reflect.Type{reflect.TypeOf(new(int8)), reflect.TypeOf(int8(0))}),
+	}
+	payload := func(t reflect.Type) string {
+		switch t.Kind() {
+		case reflect.Bool:
+			return `"true"`
+		case reflect.String:
+			return `"\"s\""`
+		case reflect.Float32:
+			return `"1.5"`
+		}
+		return `"7"`
+	}
+	sub := sub0
+	for _, t := range types {
+		n := t.NumField() - 2
+		var docs [][2]string
+		for i := 0; i < n; i++ {
+			ft := t.Field(i + 1).Type
+			for _, v := range []string{"null", `"null"`, payload(ft), "7", `""`, `[1]`, `"x"`} {
+				docs = append(docs, [2]string{fmt.Sprintf(`{"f%d":%s}`, i, v), fmt.Sprintf("string-opt(%s):%s", ft, v)})
+				// a later sibling first, then this member: the sibling's bytes lie behind the member
+				if i+1 < n {
+					docs = append(docs, [2]string{fmt.Sprintf(`{"f%d":%s,"f%d":%s}`, i+1, payload(t.Field(i+2).Type), i, v), fmt.Sprintf("string-opt(%s):after-sibling:%s", ft, v)})
+				}
+			}
+		}
+		for di, d := range docs {
+			if !c.Cur(sub, "shapes=core\ntype: "+t.String()+"\ndoc: "+d[0]) {
+				sub++
+				continue
+			}
+			seed := int64(rt.Mix(uint64(c.Seed), uint64(c.Idx), uint64(sub)))
+			desc := strings.NewReplacer(`"`, "", "7", "num", "1.5", "num").Replace(d[1])
+			c07Case(c, sub, t, desc, []byte(d[0]), seed, false)
+			c07Case(c, sub, t, desc, []byte(d[0]), seed, true)
+			_ = di
+			sub++
+		}
+	}
+	c.Obs("string_opt_canary_cases", int64(sub-sub0))
+}
+
 // c07AllocEdge: documents whose private copy (len+1 bytes) exactly fills a Go allocation size
 // class and which end in a construct that makes a scanner look ahead (a high surrogate escape, a
 // pair, a short escape, a multi-byte character, a backslash-quote, a number, a literal). A scanner
@@ -519,6 +578,9 @@ func init() {
 				}
 				if k == 11 && c.Idx%64 == 0 {
 					c07AllocEdge(c, 100000)
+				}
+				if k == 11 && c.Idx%64 == 1 {
+					c07StringOpt(c, 300000)
 				}
 				if k == 0 {
 					c.Sample(map[string]any{"type": t.String(), "docs": len(docs), "example_doc": docs[len(docs)/2][0], "fields": descs})
